@@ -139,6 +139,9 @@ def setup_config(
             store_p = os.path.join(load_dir, str(act), "traj.txt")
             if not os.path.isfile(store_p):
                 return None
+
+        # rows written after this restart file must not be kept:
+        prune_data_file(config)
     else:
         # no 'current' in toml, start from step 0.
         size = len(config["simulation"]["interfaces"])
@@ -275,6 +278,45 @@ def check_config(config: dict) -> None:
                         + " settings of one of the engines in"
                         + " 'infretis.mdp'!"
                     )
+
+
+def prune_data_file(config: dict) -> None:
+    """Drop the data rows that are newer than the restart file.
+
+    A path gets its row when it leaves the active set. A row of a path that
+    the restart file lists as active, or has not numbered yet, was appended
+    after the restart file was written (the run was killed in between) and
+    that path will get its row again. The same holds for a last row that
+    was cut off while it was written.
+
+    Args
+        config: the configuration dictionary of a restart
+    """
+    data_file = config["output"].get("data_file", None)
+    if data_file is None or not os.path.isfile(data_file):
+        return
+    active = set(config["current"]["active"])
+    traj_num = config["current"]["traj_num"]
+    keep, pruned = [], False
+    with open(data_file, encoding="utf-8") as read:
+        for line in read:
+            fields = line.split()
+            if not line.endswith("\n"):
+                pruned = True
+            elif line.startswith("#") or not fields:
+                keep.append(line)
+            elif (
+                fields[0].replace(".", "", 1).isdigit()
+                and int(float(fields[0])) not in active
+                and int(float(fields[0])) < traj_num
+            ):
+                keep.append(line)
+            else:
+                pruned = True
+    if pruned:
+        with open(data_file + ".tmp", "w", encoding="utf-8") as write:
+            write.writelines(keep)
+        os.replace(data_file + ".tmp", data_file)
 
 
 def write_header(config: dict) -> None:
